@@ -117,10 +117,13 @@ def gen(rng: Rng, tier, i):
             "mask_units": rng.fork("mu").pick(["A^-1", "A^-1", "mrad"]),
             # the other constructor: the same stack and mask packed into a 4-D dataset (every pattern
             # displaced by an integer origin that is handed over as the fitted origin)
-            "ctor4d": {"seed": rng.fork("c4").randrange(10 ** 6), "shifted": rng.fork("c4").chance(0.6),
-                       "kernel": rng.fork("c4").pick(["ssb", "prlx", "icom", "obf", "mf"]),
-                       "b": ["knob", rng.fork("c4").randrange(10 ** 6)]}
-            if rng.fork("c4").chance(0.3) else None}
+            "ctor4d": None}
+    c4r = rng.fork("c4")
+    if c4r.chance(0.3):
+        plan["ctor4d"] = {"seed": c4r.randrange(10 ** 6), "shifted": c4r.chance(0.6),
+                          "kernel": c4r.pick(["ssb", "prlx", "icom", "obf", "mf"]),
+                          "b": ["knob", c4r.randrange(10 ** 6)]}
+    _unused = {"ctor4d": None}
     for j in range(rng.pick([3, 4, 6])):
         r = rng.fork(("call", j))
         kern = r.pick(list(KERNELS))
